@@ -1,4 +1,6 @@
 //! Sections of the reflection dump. Each section prints lines `key value...`.
+#[path = "dumps_parse.rs"]
+mod dumps_parse;
 pub fn dump(which: &[String]) {
     let all = which.is_empty();
     let want = |s: &str| all || which.iter().any(|w| w == s);
@@ -9,5 +11,9 @@ pub fn dump(which: &[String]) {
         println!("radix {}", cfg!(feature = "radix"));
         println!("format {}", cfg!(feature = "format"));
         println!("std {}", cfg!(feature = "std"));
+    }
+    // string->float tables and limits (lemire, small_powers, large_powers, bellerophon, float_consts)
+    if all || dumps_parse::SECTIONS.iter().any(|s| want(s)) {
+        dumps_parse::dump(&want);
     }
 }
